@@ -36,6 +36,7 @@ structure Node where
   paramNets   : List String
   paramVms    : List String   -- sorted
   objs        : List Obj
+  cls         : String := ""   -- bridging class: the node's name with the worker specific part removed (C09)
 deriving Repr, DecidableEq
 
 structure Edge where
@@ -189,6 +190,32 @@ def Graph.checkClones (g : Graph) : Bool :=
     | some s, some c => s.cloneSource && !s.mayRun && !c.flat && c.worker == s.worker && sc.1 != sc.2
     | _, _ => false) &&
   allIdx (fun i n => !n.cloneSource || g.clones.any (fun sc => sc.1 == i)) 0 g.nodes
+
+/-! ### bridging (C09): equivalent tests of different workers are linked symmetrically and share their registers -/
+
+def Graph.regsOf (g : Graph) (i : Nat) : List Nat := (g.regs[i]?).getD []
+
+def Graph.isBridged (g : Graph) (a b : Nat) : Bool := g.bridged.contains (a, b)
+
+/-- every recorded bridge joins two different composite nodes of one class and of different workers, is recorded
+on both ends, and the two ends reference the very same four register objects -/
+def Graph.checkBridgePairs (g : Graph) : Bool :=
+  g.bridged.all (fun ab =>
+    match g.nodes[ab.1]?, g.nodes[ab.2]? with
+    | some a, some b =>
+      ab.1 != ab.2 && !a.flat && !b.flat && a.cls == b.cls && a.worker != b.worker &&
+      g.isBridged ab.2 ab.1 && g.regsOf ab.1 == g.regsOf ab.2 && (g.regsOf ab.1).length == 4
+    | _, _ => false)
+
+/-- every two composite nodes of one class and of different workers are bridged (nobody is left out), and
+registers are shared by nobody else: equal register objects imply equal class -/
+def Graph.checkBridgeClasses (g : Graph) : Bool :=
+  allIdx (fun i a => allIdx (fun j b =>
+      i == j || a.flat || b.flat ||
+      ((!(a.cls == b.cls && a.worker != b.worker) || g.isBridged i j) &&
+       (!(g.regsOf i).any (fun r => (g.regsOf j).contains r) || a.cls == b.cls))) 0 g.nodes) 0 g.nodes
+
+def Graph.checkBridges (g : Graph) : Bool := g.checkBridgePairs && g.checkBridgeClasses
 
 /-! ### the checker -/
 
